@@ -178,9 +178,9 @@ func init() {
 			}
 			BFS(c, &PartialFamily{Nmax: pick(c, 3, 4), TR: 63, UndoBud: pick(c, 1, 2), SetLimit: 2, NoIngest: true, Prop: "C09", UndoAs: "C06", Collect: "C06", Base: b}, 0)
 		}
-		if c.Thorough() && !c.Expired() {
+		if !c.Expired() {
 			d3 := &HistFamily{
-				Nmax:      5,
+				Nmax:      pick(c, 4, 5),
 				Insts:     stdInsts([]uint8{0, 63}, []string{"all", "none"})[1:],
 				Or:        HistOracle{Roots: true, Proofs: true, Lookups: true, Prop: "C06", OnlyAfter: "undo", ProofSets: "small"},
 				UndoBud:   3,
@@ -188,6 +188,8 @@ func init() {
 			}
 			c.Cov.Bound["three_undos.Nmax"] = d3.Nmax
 			BFS(c, d3, 0)
+		}
+		if c.Thorough() && !c.Expired() {
 			deep := &HistFamily{
 				Nmax:      7,
 				Insts:     stdInsts([]uint8{0, 63}, []string{"all", "even"})[1:],
